@@ -132,7 +132,7 @@ class Evolver:
         kind = r.choice(["reorder_fields", "remove_field", "add_field_default", "add_field_nodefault", "rename_field_alias",
                          "rename_type_alias", "change_namespace", "promote", "demote", "enum_drop", "enum_add", "enum_reorder",
                          "fixed_size", "move_definition", "change_kind", "wrap_union", "unwrap_union", "union_reorder", "union_drop", "union_add",
-                         "promote", "remove_field", "reorder_fields", "wrap_union", "define_earlier", "add_field_union_ref"])
+                         "promote", "remove_field", "reorder_fields", "wrap_union", "define_earlier", "add_field_union_ref", "reuse_writer_alias"])
         recs = [(p, n, ns, d) for p, n, ns, d in pos if isinstance(n, dict) and n.get("type") == "record"]
         if kind in ("reorder_fields", "move_definition") and recs:
             p, n, ns, d = recs[0]
@@ -200,6 +200,23 @@ class Evolver:
                     if any(x["name"] == newf["name"] for x in n["fields"]):
                         return js
                     n["fields"].insert(r.randint(i + 1, len(n["fields"])), newf)
+                self.steps.append(kind)
+                return js
+        if kind == "reuse_writer_alias" and recs:
+            # the reader drops a field that carries aliases of its own (left from an earlier rename
+            # on the writer's side: they play no part in matching) and has a NEW field under one of
+            # those former names: it is a reader-only field
+            cands = [(n, f) for p, n, ns, d in recs for f in n.get("fields", []) if f.get("aliases")]
+            if cands:
+                n, f = r.choice(cands)
+                t = f["type"] if isinstance(f["type"], str) and f["type"] in SAFE_DEFAULT else r.choice(["string", "long"])
+                newf = {"name": f["aliases"][0], "type": t}
+                if r.random() < 0.75:
+                    newf["default"] = SAFE_DEFAULT[t]
+                if any(x["name"] == newf["name"] for x in n["fields"]):
+                    return js
+                i = n["fields"].index(f)
+                n["fields"][i] = newf
                 self.steps.append(kind)
                 return js
         if kind == "rename_field_alias" and recs:
@@ -350,6 +367,18 @@ class Evolver:
                 self.steps.append(kind)
                 return js
         return js
+
+
+def decorate_field_aliases(js, rng, p=0.4):
+    """Aliases on the fields of a (writer) schema: former names of the field."""
+    js = copy.deepcopy(js)
+    for path, n, ns, d in positions(js):
+        if isinstance(n, dict) and n.get("type") == "record":
+            names = {f["name"] for f in n.get("fields", [])}
+            for f in n.get("fields", []):
+                if rng.random() < p and ("was_" + f["name"]) not in names:
+                    f["aliases"] = ["was_" + f["name"]] + (["older_" + f["name"]] if rng.random() < 0.3 else [])
+    return js
 
 
 def kind_of(t):
